@@ -3,13 +3,13 @@ from vx.unit import Unit
 from vx.extract import C
 from .common import results_items, runtime_options_item
 
-PROPS = ['C03', 'C02', 'C01']
+PROPS = ['C03', 'C02', 'C17', 'C01']
 HEADER = '#![feature(allocator_api)]\nuse vstd::prelude::*;\nuse vstd::std_specs::convert::*;\nuse std::collections::VecDeque;\nverus! {\n'
 FOOTER = '\n} // verus!\nfn main() {}\n'
 
 
 def build(repo, findings):
-    u = Unit('U4n', 'pipeline status: last stage, PIPESTATUS in order, pipefail = rightmost failure', repo, ['C03', 'C02'], safety_props=['C01', 'C03'])
+    u = Unit('U4n', 'pipeline status: last stage, PIPESTATUS in order, pipefail = rightmost failure', repo, ['C03', 'C02', 'C17'], safety_props=['C01', 'C03'])
     interp = u.source('brush-core/src/interp.rs')
     rs = u.source('brush-core/src/results.rs')
     op = u.source('brush-core/src/options.rs')
@@ -41,7 +41,7 @@ def build(repo, findings):
     f.at_body_start(fn, 'let ghost all = process_spawn_results@;\nlet ghost mut done: Seq<ExecutionSpawnResult> = Seq::empty();\nlet ghost opts0 = shell.opts;')
     f.loop(0, fn_name=fn, invariant_except_break=[
         C('aux', 'done + process_spawn_results@ == all && shell.opts == opts0'),
-        C('C02,C03 fold-over-stages', '''({
+        C('C02,C03,C17 fold-over-stages-each-stage-awaited-unless-one-was-stopped', '''({
     let a = acc_fold(done);
     &&& !a.failed
     &&& a.last == result
@@ -52,7 +52,7 @@ def build(repo, findings):
 })'''),
     ], ensures=[
         C('aux', 'done == all && shell.opts == opts0'),
-        C('C02,C03 fold-over-all-stages', '''({
+        C('C02,C03,C17 fold-over-all-stages', '''({
     let a = acc_fold(done);
     &&& !a.failed
     &&& a.last == result
